@@ -236,7 +236,7 @@ def _scenario_component(R, pid):
     for fam, desc, ok, msg in res:
         if ok:
             continue
-        key = "SCN." + pid + "." + desc.split(":")[-1].strip()[:60]
+        key = "SCN.C04.stop-rule" if pid == "C04" else "SCN." + pid + "." + desc.split(":")[-1].strip()[:60]
         if key in seen:
             continue
         seen.add(key)
@@ -249,6 +249,8 @@ def _scenario_component(R, pid):
         "rule": "contract instances enumerated by pyvc/scenarios.py with a scripted optimizer whose calls are logged: " + (
             "parameter grids of 1..3 keys x 1..3 values (dict and list of dicts) exhaustively for the ParameterGrid laws; execute / resolve on "
             "score tables with ties, min and max, 1..3 trials" if pid == "C19" else
+            "prescribed rate histories (length 4-6 over {0, .05, .3, .31, .6}) x max_cycles {1,3,5} x fitness_error {None, 0, .3} x early stopping "
+            "{None, (1,.1), (2,.05), (2,1), (3,1)} through the real optimize() loop of a scripted optimizer" if pid == "C04" else
             "n, m in 1..3 x the four shapes of modes plus None x 1..2 trials; three export formats; unknown modes"),
         "bound": "the enumerated family only", "samples": [x[1] for x in res[:3]]}
     R.assume("bounded scenario check: ParameterGrid / HyperTuner / Multitask use generators, itertools, pandas and process pools - outside "
@@ -267,7 +269,7 @@ def compose(R, pid, tier, seed, bnd):
         _bnd_component(R, pid, tier, seed)
         if pid in ("C13", "C14"):
             _laws_component(R, pid)
-    if pid in ("C19", "C20"):
+    if pid in ("C19", "C20") or (pid == "C04" and bnd):
         _scenario_component(R, pid)
     # lemma scripts (Lean) and canaries are run by the thorough tier
     if tier == "thorough":
